@@ -16,6 +16,10 @@ CHECKS = {
    text="metamorphic monitor: every input (golden corpus, compiling near-miss mutations, generated programs biased to the value-to-text conversion sites) is compiled in both styles; canonical (context, selector, declarations) lists from an independent CSS reader must be equal once exactly the licensed differences are removed (whitespace, optional semicolons, non-/*! comments, number and colour spellings); success/failure, @error text, Logger message sequences and probe-observed values must be equal; string tokens are never canonicalised",
    note="the canonicaliser is the trusted base (CSS Syntax 3 tokenizer + colour table + hsl->rgb); outputs that are not parseable CSS in either style are inconclusive; wording of compiler-generated error messages is not compared",
    technique="runtime monitoring: metamorphic differential oracle (expanded vs compressed) over recorded outputs, Logger traces and probe values"),
+ "C05": dict(engine="vw+vp+miri",
+   text="on every successful compilation in the domain (golden corpus minus the committed list of items whose expected output is deliberately not plain CSS, plus generated clean programs and hostile string literals; x {expanded, compressed} x {allows_charset}): explicit UTF-8 validation of the returned bytes, independent CSS reader (balanced blocks, terminated strings/comments/urls), scan for Sass-only syntax, @charset/BOM rule, and re-compilation of the output as plain CSS and as SCSS whose canonical block list must equal the first one; thorough adds the serializer workload under Miri",
+   note="fixed point compared on canonical (context, selector, declarations) lists, ignoring declaration-less rules; outputs containing `#{` inside strings are not re-fed; nested @media re-merging is left to C17; domain exclusions are listed in vp/c05_domain_exclusions.json with the failing check",
+   technique="runtime monitoring: invariant checks on recorded outputs (independent CSS reader) + metamorphic fixed-point re-compilation; Miri for the unsafe from_utf8_unchecked path"),
 }
 
 ALL = ["C%02d" % i for i in range(1, 21)]
